@@ -40,6 +40,10 @@ func init() {
 	for _, a := range []string{"$", "*", "^", "~", "|"} {
 		badPairs[[2]string{a, "="}] = true
 	}
+	// pairs of the CSS Syntax serialization table not covered by the loops above
+	badPairs[[2]string{"-", "-"}] = true
+	badPairs[[2]string{"#", "-"}] = true
+	badPairs[[2]string{"number", "%"}] = true
 	badPairs[[2]string{"ident", "() block"}] = true
 	badPairs[[2]string{"|", "|"}] = true
 	badPairs[[2]string{"/", "*"}] = true
